@@ -8,8 +8,11 @@ the implementation's outputs, the unrestricted result being the one observed fro
     to it; otherwise `None`;
   * dry run: the flag equals `!result.is_false()`; the (unlimited) task count is at least the number of decision
     nodes of the result; `None` exactly when the task count exceeds the limit, and otherwise the same pair;
-  * `cmp_implies`: `Less/Equal/Greater/None` exactly by truth-table inclusion; `None` for different variable
-    counts.
+  * `cmp_implies`: `Less/Equal/Greater/None` exactly by truth-table inclusion (same variable count);
+  * inputs outside the quantifier (a flip variable `≥ num_vars`, operands with different variable counts): no
+    clause at all; the verdict is agreement with the model's outcome only (also for the observation `hang`).
+  Agreement only, never a clause: the exact task count equals the model's count; the limited dry-run pair repeats
+  the unlimited pair.
 -/
 namespace B.Drive.C05
 open B B.Lim B.Drive
@@ -100,9 +103,11 @@ def limCase (table conn l r fl fr fo limit : String) (obs : List String) (tag : 
     let op := op2OfTable table
     if !consistent2 op c then Verdict.bad "inconsistent table (harness bug)" else
     let model := showLim (fusedBinaryFlipOpWithLimit lim L R op fl fr fo)
+    -- inputs outside the property's quantifier (flip variable out of range, different variable counts): every
+    -- clause is off; the verdict is agreement with the model outcome only
+    let outside := mustPanic L R fl fr fo
     let fail :=
-      if mustPanic L R fl fr fo then
-        (if limited == "panic" && unres == "panic" then none else some "bounds:panic-expected")
+      if outside then none
       else match parseArr? unres with
         | none => some ("unrestricted-outcome:" ++ unres)
         | some U =>
@@ -119,9 +124,9 @@ def limCase (table conn l r fl fr fo limit : String) (obs : List String) (tag : 
                 checkPointwise n X L R (conn2 c) fl fr fo,
                 if n > maxTT && noflip then checkExact X L R (conn2 c) else none, wide]
     let usz := (parseArr? unres).map (·.size) |>.getD 0
-    { agree := model == limited, model, fail,
+    { agree := model == limited && (!outside || unres == "panic"), model, fail,
       nontrivial := usz > 2 && lim + 2 ≥ usz,
-      tags := [tag, if limited == "none" then "none" else if limited == "panic" then "panic" else "some",
+      tags := (if outside then ["outside-quantifier"] else []) ++ [tag, if limited == "none" then "none" else if limited == "panic" then "panic" else "some",
         if lim == usz then "lim=size" else if lim + 1 == usz then "lim=size-1" else if lim == 0 then "lim=0" else "lim-other",
         if usz == 0 then "res-panic" else if usz == 1 then "res-false" else if usz == 2 then "res-true" else "res-nonconst"] ++
         (if lim ≥ 65535 then [if lim ≥ 2 ^ 32 then "lim>=2^32" else "lim>=2^16-1"] else []) ++
@@ -136,9 +141,11 @@ def dryCase (table conn l r fl fr fo limit : String) (obs : List String) (tag : 
     let model := showDry (checkFusedBinaryFlipOp lim L R op fl fr fo)
     let panics := mustPanic L R fl fr fo
     let modelFull := if panics then "panic" else showPair (dryFull L R op fl fr fo)
+    -- outside the quantifier: no clause, agreement with the model outcome only. Inside: the clauses of the
+    -- statement on the observed values (the task count is the one the unlimited call reports); that the counts
+    -- equal the MODEL's count, or that the limited pair repeats the unlimited pair, is agreement, not a clause
     let fail :=
-      if panics then
-        (if dry == "panic" && full == "panic" && unres == "panic" then none else some "bounds:panic-expected")
+      if panics then none
       else match parseArr? unres, parsePair? full with
         | some U, some (flag, count) => firstFail [
             if flag == (U.size != 1) then none else some "dry:flag-differs-from-not-is_false",
@@ -147,12 +154,14 @@ def dryCase (table conn l r fl fr fo limit : String) (obs : List String) (tag : 
             else match parsePair? dry with
               | none => some ("dry-outcome:" ++ dry)
               | some p => firstFail [if count > lim then some "dry:some-although-count-exceeds-limit" else none,
-                  if p == (flag, count) then none else some "dry:limited-pair-differs-from-unlimited"]]
+                  if p.1 == (U.size != 1) then none else some "dry:limited-flag-differs-from-not-is_false",
+                  if p.2 ≥ decisionNodes U then none else some "dry:limited-count-below-decision-nodes",
+                  if p.2 ≤ lim then none else some "dry:some-with-reported-count-above-limit"]]
         | _, _ => some ("outcome:" ++ full ++ "/" ++ unres)
     let cnt := (parsePair? full).map (·.2) |>.getD 0
-    { agree := model == dry && modelFull == full, model := model ++ "/" ++ modelFull, fail,
+    { agree := model == dry && modelFull == full && (!panics || unres == "panic"), model := model ++ "/" ++ modelFull, fail,
       nontrivial := cnt > 0,
-      tags := [tag, if dry == "none" then "none" else if dry == "panic" then "panic" else "some",
+      tags := (if panics then ["outside-quantifier"] else []) ++ [tag, if dry == "none" then "none" else if dry == "panic" then "panic" else "some",
         if lim == cnt then "lim=count" else if lim + 1 == cnt then "lim=count-1" else "lim-other",
         if cnt > ((parseArr? unres).map decisionNodes |>.getD 0) then "count>nodes" else "count=nodes"] ++
         (if lim ≥ 65535 then [if lim ≥ 2 ^ 32 then "lim>=2^32" else "lim>=2^16-1"] else []) ++
@@ -202,10 +211,12 @@ def handleBase (key : String) (ins obs : List String) : Verdict :=
               let ta := ttOf A n; let tb := ttOf B n
               ((List.range (2 ^ n)).all fun i => !ta[i]! || tb[i]!, (List.range (2 ^ n)).all fun i => !tb[i]! || ta[i]!)
           if ab && ba then "equal" else if ab then "less" else if ba then "greater" else "none"
+      -- different variable counts: implication between the two functions is not defined, the property says
+      -- nothing; agreement with the model outcome (`none`) only
       { agree := model == res, model,
-        fail := if res == expected then none else some ("cmp_implies:expected-" ++ expected),
+        fail := if numVars B != n || res == expected then none else some ("cmp_implies:expected-" ++ expected),
         nontrivial := A.size > 2 && B.size > 2 && numVars B == n,
-        tags := ["cmp", res, if numVars B != n then "vars-differ" else "vars-equal", if n > maxTT then "n>12" else if n ≥ 6 then "n6-12" else "n<6"] ++
+        tags := (if numVars B != n then ["outside-quantifier"] else []) ++ ["cmp", res, if numVars B != n then "vars-differ" else "vars-equal", if n > maxTT then "n>12" else if n ≥ 6 then "n6-12" else "n<6"] ++
           (if A.size > 65536 || B.size > 65536 then ["big-operand"] else []) }
     | _, _, _ => Verdict.bad "args"
   | _, _ => Verdict.bad ("key " ++ key)
@@ -213,7 +224,12 @@ def handleBase (key : String) (ins obs : List String) : Verdict :=
 /-- Aliasing cases: the same function as both operands, passed by the harness either as the SAME object (`alias`)
     or as equal clones (`clone`). Values have no identity in the model and in the property: both modes are judged
     like the plain case with the operand repeated (plain entry points when all flips are absent). -/
-def handle (key : String) (ins obs : List String) : Verdict :=
+def handle (key : String) (ins obs0 : List String) : Verdict :=
+  -- the runner reports a call that did not return as the single observation `hang`: inside the quantifier that
+  -- is a failed clause (an outcome the statement never allows), outside it is a plain disagreement
+  let obs := if obs0 != ["hang"] then obs0
+    else if key == "C05.dry" || key == "C05.bdry" || key == "C05.dryA" then ["hang", "hang", "hang"]
+    else if key == "C05.cmp" || key == "C05.cmpA" then ["hang"] else ["hang", "hang"]
   match key, ins with
   | "C05.limA", [mode, table, conn, a, fl, fr, fo, limit] =>
     if mode != "alias" && mode != "clone" then Verdict.bad "mode" else
